@@ -207,27 +207,27 @@ theorem rows_spec (k : RawKey) (load : List Col) (nmax npart : Nat) (t : Table)
   | rvint =>
     simp only [assemble] at h
     cases h
-    simp only [assemble] at hempty
+    simp only at hempty
     simp only [hempty]
     have := hrv (Or.inl rfl)
     by_cases hp : Col.pos ∈ load <;> by_cases hv : Col.vel ∈ load <;> simp [hp, hv] at this ⊢
   | pack9 =>
     simp only [assemble] at h
     cases h
-    simp only [assemble] at hempty
+    simp only at hempty
     simp only [hempty]
     have := hrv (Or.inr rfl)
     by_cases hp : Col.pos ∈ load <;> by_cases hv : Col.vel ∈ load <;> simp [hp, hv] at this ⊢
   | packedpid =>
     simp only [assemble, ColName.hasPid, if_true] at h
     cases h
-    simp only [assemble, ColName.hasPid, if_true] at hempty
+    simp only at hempty
     simp only [hempty]
     simp
   | pid =>
     simp only [assemble, ColName.hasPid, if_true] at h
     cases h
-    simp only [assemble, ColName.hasPid, if_true] at hempty
+    simp only at hempty
     simp only [hempty]
     simp
 
@@ -254,9 +254,11 @@ theorem read_spec (f : FileDesc) (k : RawKey) (l : List Col) (lp lv : Option Boo
   have hrows := rows_spec k l _ _ t hsub hne ht
   refine ⟨{ colname := .known k, table := t, warn := (resolve (.known k) (some l) lp lv).2,
             addsSubsample := f.lightcone && f.summit }, ?_, rfl, hc1, hc2, ?_, rfl, hw⟩
-  · simp only [readAsdf, hd, bind, Except.bind, FileDesc.has, hk]
-    rw [show resolve (.known k) (some l) lp lv = (l, (resolve (.known k) (some l) lp lv).2) from by rw [← hr]]
-    simp [ht]
+  · have hres : resolve (.known k) (some l) lp lv = (l, (resolve (.known k) (some l) lp lv).2) :=
+      Prod.ext hr rfl
+    simp only [readAsdf, hd, bind, Except.bind]
+    rw [hres]
+    simp [FileDesc.has, hk, ht]
   · rw [hrows]; cases k <;> rfl
 
 end AbacusVerif.ReadAsdf
